@@ -59,10 +59,14 @@ Proof.
   - cbn [span_sl]. destruct (N.eqb_spec c 47) as [->|Hc].
     + rewrite escape_slash. cbn [skip_slashes]. change (N.eqb 47%N cSL) with true. cbv iota. rewrite IH. cbn [fst snd].
       f_equal. lia.
-    + cbn [fst snd]. pose proof (escape_head_noslash b (c :: s)) as H.
-      destruct (escape b (c :: s)) as [|d r] eqn:E.
-      * cbn. f_equal. lia.
-      * cbn [skip_slashes]. change cSL with 47%N. rewrite H; [f_equal; cbn; lia|apply N.eqb_neq; exact Hc].
+    + cbn [fst snd]. change (escape b (c :: s)) with (escape_ch b c ++ escape b s). unfold escape_ch.
+      apply N.eqb_neq in Hc.
+      destruct (N.eqb c 92) eqn:E92.
+      * cbn [app skip_slashes]. change (N.eqb 92 cSL) with false. change (N.eqb 92 cBS) with true. cbv iota. f_equal. cbn. lia.
+      * destruct (ch_in c _).
+        -- cbn [app skip_slashes]. change (N.eqb 92 cSL) with false. change (N.eqb 92 cBS) with true. cbv iota.
+           change cSL with 47%N. rewrite Hc. f_equal. cbn. lia.
+        -- cbn [app skip_slashes]. change cSL with 47%N. change cBS with 92%N. rewrite Hc, E92. f_equal. cbn. lia.
 Qed.
 
 Section PathRoot.
